@@ -75,9 +75,13 @@ class Real:
         self.kinds = [self.kind]
         self.parents = [None]
         self.ext = []          # compound classes made outside the store (members of containers), watched
+        self.declared = [[]]   # per class: the member descriptors the CASE supplied via field_schema=[…] (inherited)
+        self.caller_alias = [] # (class id, attr) whose list object is the very list the caller passed
 
     def ext_snapshot(self, j):
-        return {"field_schema": [self.field_desc(f) for f in self.ext[j].field_schema]}
+        cls = self.ext[j]
+        out = {a: self.cval(a, getattr(cls, a)) for a in attrs_of("compound") + ["properties"]}
+        return out
 
     # -- canonical values
     def label(self, cls):
@@ -90,8 +94,7 @@ class Real:
         lab = self.label(f)
         if isinstance(lab, int):
             return lab
-        return {"gen": bool(f.__dict__.get("_compound_generated")), "name": f.name, "optional": bool(f.optional),
-                "format": getattr(f, "format", None)}
+        return {"name": f.name, "optional": bool(f.optional), "format": getattr(f, "format", None)}
 
     def cval(self, attr, v):
         if attr in ("validators", "descent_validators"):
@@ -144,6 +147,14 @@ class Real:
         self.classes.append(cls)
         self.parents.append(parent)
         self.kinds.append(kind or self.kinds[parent])
+        supplied = getattr(self, "_supplied", None)
+        self.declared.append([self.field_desc(f) for f in supplied] if supplied is not None
+                             else list(self.declared[parent]))
+        self._supplied = None
+        for attr, lst in getattr(self, "_passed_descent", []):
+            if cls.__dict__.get(attr) is lst:
+                self.caller_alias.append((len(self.classes) - 1, attr))
+        self._passed_descent = []
 
     def kwargs(self, kw):
         out = {}
@@ -153,12 +164,34 @@ class Real:
                 out[attr] = [_validator(x) for x in val]
                 if attr == "validators":
                     self.passed.append(out[attr])     # the caller keeps (and later mutates) this list
+                else:
+                    # `using` / `__init__` store the caller's descent_validators list as given (no copy): the
+                    # caller's own list is not "the schema it came from", so C06 does not forbid it; it is
+                    # observed (identity only, never mutated) and counted in the evidence
+                    self._passed_descent = getattr(self, "_passed_descent", []) + [(attr, out[attr])]
             elif attr == "properties":
                 out[attr] = dict((k, v) for k, v in val)
             elif attr == "field_schema":
                 # user-supplied members: Integer classes named arbitrarily, some optional
                 import flatland
-                out[attr] = [flatland.Integer.named(n).using(optional=o) for n, o in val]
+                members = []
+                for m in val:
+                    if isinstance(m, dict):
+                        # a member given by its descriptor (a ref resolved in the full history, see _final_behaviour)
+                        members.append(flatland.Integer.named(m["name"]).using(optional=m["optional"],
+                                                                              format=m["format"]))
+                    elif len(m) == 2:
+                        members.append(flatland.Integer.named(m[0]).using(optional=m[1]))
+                    else:
+                        # ["ref", i, j, optional|None]: the j-th member of class i's current field_schema,
+                        # taken over as it is or derived with .using(optional=…); skipped if there is none
+                        _, i, j, o = m
+                        fs = list(self.classes[i].field_schema) if i < len(self.classes) else []
+                        if j < len(fs):
+                            members.append(fs[j] if o is None else fs[j].using(optional=o))
+                out[attr] = members
+                self._supplied = members
+                self.last_members = [self.field_desc(f) for f in members]
             else:
                 out[attr] = val
         return out
@@ -166,6 +199,8 @@ class Real:
     def do(self, step):
         """returns (result tag, instance or None)"""
         self.passed = []
+        self._supplied = None
+        self._passed_descent = []
         try:
             return self._do(step)
         except (TypeError, AttributeError, AssertionError, ValueError, KeyError) as e:
@@ -194,7 +229,19 @@ class Real:
             self.add(getattr(cls, t)(*[_validator(x) for x in step["vs"]], **kw), c)
         elif t == "with_properties":
             pairs = [(k, v) for k, v in step["pairs"]]
-            self.add(cls.with_properties(*pairs), c)
+            form = step.get("form", "list")
+            if form == "list":        # the documented form: one iterable of pairs
+                new = cls.with_properties(pairs)
+            elif form == "mapping":
+                new = cls.with_properties(dict(pairs))
+            elif form == "kw":
+                new = cls.with_properties(**dict(pairs))
+            elif form == "split":     # a list of pairs plus keywords (keywords win, positions of first mention)
+                m = len(pairs) // 2
+                new = cls.with_properties(pairs[:m], **dict(pairs[m:]))
+            else:                     # "none": no positional argument at all
+                new = cls.with_properties() if not pairs else cls.with_properties(**dict(pairs))
+            self.add(new, c)
         elif t == "of":
             self.add(cls.of(*[self.classes[j] for j in step["members"]]), c)
         elif t == "of_date":
@@ -278,7 +325,8 @@ def run_chain(case):
                       "inst": real.inst_snapshot(inst, step["c"]) if inst is not None else None})
         prev = now
     final, values = final_phase(real)
-    return {"start": [prev0 for prev0 in [Real(case).snapshot_all()[0]]], "steps": steps, "final": final,
+    alias = [[i, a] for i, a in real.caller_alias]
+    return {"_caller_alias": alias, "start": [prev0 for prev0 in [Real(case).snapshot_all()[0]]], "steps": steps, "final": final,
             "_values": values}
 
 
@@ -358,16 +406,44 @@ def _is_prepared(cls):
 
 
 def _generated(optional):
-    return [{"gen": True, "name": nm, "optional": bool(optional), "format": fmt}
+    return [{"name": nm, "optional": bool(optional), "format": fmt}
             for nm, fmt in (("year", "%04i"), ("month", "%02i"), ("day", "%02i"))]
 
 
+def _member_closure(cls, seen=None):
+    """the class and, transitively, the member classes an instantiation of it may instantiate"""
+    seen = seen if seen is not None else []
+    if any(cls is x for x in seen):
+        return seen
+    seen.append(cls)
+    members = list(getattr(cls, "field_schema", ()) or ())
+    if getattr(cls, "member_schema", None):
+        members.append(cls.member_schema)
+    for f in members:
+        if isinstance(f, type):
+            _member_closure(f, seen)
+    return seen
+
+
+def _lazily_prepared_owner(cls, newly):
+    """the newly prepared class P that accounts for cls's new field_schema: cls is P or a descendant of P
+    (never an ancestor or a sibling), and the list cls shows is the one P owns now"""
+    for p in newly:
+        if issubclass(cls, p) and p.__dict__.get("field_schema") is cls.field_schema:
+            return p
+    return None
+
+
 def classify_lazy(case, failure):
-    """KF-C06-a class predicate, recomputed from the case: the step is an instantiation; it flipped
-    `_compound_prepared` of a compound class P that was unprepared; the disputed class reads its
-    field_schema from P (P itself, a descendant inheriting it, or P as a watched member of a container);
-    nothing but field_schema differs; and the new field_schema is exactly what lazy preparation builds:
-    the members that were not generated, then year/month/day generated with P.optional for the open positions."""
+    """KF-C06-a class predicate, recomputed from the case:
+    * the step is an instantiation of class T;
+    * every class whose `_compound_prepared` flipped in that step is T or a (transitive) member of T — an
+      instantiation prepares what it instantiates, never a parent or a sibling;
+    * the disputed class is such a newly prepared class P or a DESCENDANT of P, and shows the list P owns now;
+    * nothing but field_schema differs;
+    * the new field_schema is exactly what lazy preparation builds: the members the case supplied for P
+      (field_schema=[…] of P or of the ancestor it inherits them from), then year/month/day generated with
+      P.optional for the positions left open."""
     if failure.get("clause") != "frame-lazy-preparation" or failure.get("attrs") != ["field_schema"]:
         return None
     step_no = failure.get("step")
@@ -379,18 +455,22 @@ def classify_lazy(case, failure):
     label = failure.get("class")
     try:
         cls = real.ext[int(label[3:])] if isinstance(label, str) else real.classes[label]
+        target = real.classes[case["steps"][step_no]["c"]]
     except (IndexError, ValueError, TypeError):
         return None
-    before = [real.field_desc(f) for f in cls.field_schema]
+    allowed = _member_closure(target)
     watched = list(real.classes) + list(real.ext)
     flags = [_is_prepared(w) for w in watched]
+    declared = {id(w): d for w, d in zip(real.classes, real.declared)}
     real.do(case["steps"][step_no])
     newly = [w for w, pb in zip(watched, flags) if not pb and _is_prepared(w)]
-    owners = [p for p in newly if cls.field_schema is p.field_schema]
-    if not owners:
+    if not newly or not all(any(p is x for x in allowed) for p in newly):
         return None
-    user = [d for d in before if not (isinstance(d, dict) and d.get("gen"))]
-    want = user if len(user) == 3 else user + _generated(owners[0].optional)[len(user):]
+    owner = _lazily_prepared_owner(cls, newly)
+    if owner is None:
+        return None
+    supplied = declared.get(id(owner), [])
+    want = supplied if len(supplied) == 3 else supplied + _generated(owner.optional)[len(supplied):]
     now = [real.field_desc(f) for f in cls.field_schema]
     observed = failure.get("observed", {})
     observed = observed.get("field_schema") if isinstance(observed, dict) else None
@@ -419,7 +499,7 @@ def oracle_chain(case):
         newly = [w for w, pb in zip(watched, prepared_before) if not pb and _is_prepared(w)]
 
         def by_lazy_preparation(cls):
-            return any(cls.field_schema is p.field_schema for p in newly)
+            return _lazily_prepared_owner(cls, newly) is not None
 
         for i in range(n):
             b, a = dict(before[i]), dict(after[i])
@@ -446,6 +526,10 @@ def oracle_chain(case):
                 lazy_here = by_lazy_preparation(real.ext[j])
                 fails.append({"clause": "frame-lazy-preparation" if lazy_here else "frame", "step": n_step,
                               "class": "ext%d" % j, "attrs": ["field_schema"], "expected": eb, "observed": ea})
+        if step["t"] == "with_properties" and r != "ok":
+            # every generated form (an iterable of pairs, a mapping, keywords, none) is a documented call
+            fails.append({"clause": "constructor-accepts-documented-call", "step": n_step, "class": step["c"],
+                          "attrs": ["properties"], "expected": "a new subclass", "observed": r})
         if r == "ok" and step["t"] in ("using", "inst"):
             # the list the caller passed as validators=… (and mutated afterwards) must have been copied
             holder = inst if (step["t"] == "inst" and real.kinds[step["c"]] != "compound") else real.classes[-1]
@@ -478,7 +562,9 @@ def oracle_chain(case):
                 if a == "properties":
                     v = [[k, x] for k, x in dict((k, x) for k, x in v).items()]
                 if a == "field_schema":
-                    v = [{"gen": False, "name": n, "optional": o, "format": "%i"} for n, o in v]
+                    v = [{"name": m[0], "optional": m[1], "format": "%i"} for m in v if len(m) == 2]
+                    if len(v) != len(dict((a2, v2) for a2, v2 in step["kw"])["field_schema"]):
+                        continue
                 if got.get(a) != v:
                     fails.append({"clause": "instance-local", "step": n_step, "class": step["c"], "attrs": [a],
                                   "expected": v, "observed": got.get(a)})
@@ -514,6 +600,7 @@ def _final_behaviour(case, keep):
     compound), keyed by the index of the step that made it; instantiations are run only if keep(step)"""
     real = Real(case)
     makers = _all_makers(case)
+    resolved = _resolved_members(case)
     made = {-1: 0}
 
     def tr(cid):
@@ -533,6 +620,10 @@ def _final_behaviour(case, keep):
             if None in mem:
                 continue
             step2["members"] = mem
+        if n_step in resolved:
+            # members the caller took out of other classes are the same member classes in every variant of the
+            # history: give them by descriptor (what they are depends on the history that produced them)
+            step2["kw"] = [[a, resolved[n_step] if a == "field_schema" else v] for a, v in step["kw"]]
         r, _ = real.do(step2)
         if r == "ok" and len(real.classes) == n + 1:
             made[n_step] = n
@@ -546,6 +637,21 @@ def _final_behaviour(case, keep):
         for a in ("field_schema", "member_schema"):
             snap.pop(a, None)     # refer to class ids / preparation state; compared through behaviour
         out[n_step] = {"attrs": snap, "behaviour": _behaviour(real.classes[cid])}
+    return out
+
+
+def _resolved_members(case):
+    """step index -> descriptors of the field_schema members, for steps whose list refers to members of other
+    classes (resolved in the full history)"""
+    out = {}
+    real = Real(case)
+    for n_step, step in enumerate(case["steps"]):
+        real.last_members = None
+        real.do(step)
+        if any(a == "field_schema" and any(isinstance(m, list) and len(m) == 4 for m in v)
+               for a, v in step.get("kw", [])) and real.last_members is not None:
+            if all(isinstance(d, dict) for d in real.last_members):
+                out[n_step] = real.last_members
     return out
 
 
@@ -666,7 +772,8 @@ def gen_dict_chain(rng):
             steps.append({"t": "using", "c": c, "kw": kw})
             n += 1
         else:
-            steps.append({"t": "with_properties", "c": c, "pairs": [[rng.choice(KEYS), rng.randint(0, 5)]]})
+            steps.append({"t": "with_properties", "c": c, "pairs": [[rng.choice(KEYS), rng.randint(0, 5)]],
+                          "form": rng.choice(["list", "mapping", "kw", "split", "none"])})
             n += 1
     return {"kind": "chain", "base": "Dict", "steps": steps}
 
@@ -730,6 +837,24 @@ def gen_container_chain(rng):
     return {"kind": "chain", "base": base, "steps": steps}
 
 
+def _rand_members_ref(rng, n):
+    """a user-supplied member list that may REUSE members of classes made so far (e.g. the year/month/day a
+    prepared class generated), as they are or derived with .using(optional=…), next to fresh Integers"""
+    if rng.random() < 0.45:
+        return _rand_members(rng)
+    k = rng.choice([1, 2, 3, 3, 3])
+    out = []
+    src = rng.randrange(n)
+    for pos in range(k):
+        r = rng.random()
+        if r < 0.7:
+            out.append(["ref", src if rng.random() < 0.8 else rng.randrange(n),
+                        pos if rng.random() < 0.8 else rng.randrange(3), rng.choice([None, None, True, False])])
+        else:
+            out.append([rng.choice(["y", "m", "d", "q"]) + str(pos), rng.random() < 0.4])
+    return out
+
+
 def gen_compound_chain(rng):
     """DateYYYYMMDD with 0-3 user-supplied members; plain/overriding instantiations and
     using(optional=…) derivations at every point of the chain"""
@@ -744,7 +869,7 @@ def gen_compound_chain(rng):
         elif r < 0.50:
             kw = [["optional", rng.random() < 0.6]]
             if rng.random() < 0.2:
-                kw.append(["field_schema", _rand_members(rng)])
+                kw.append(["field_schema", _rand_members_ref(rng, n)])
             if rng.random() < 0.2:
                 kw.append(["name", rng.choice(NAMES)])
             steps.append({"t": "inst", "c": c, "kw": kw})
@@ -752,14 +877,14 @@ def gen_compound_chain(rng):
         elif r < 0.80:
             kw = [["optional", rng.random() < 0.6]]
             if rng.random() < 0.15:
-                kw.append(["field_schema", _rand_members(rng)])
+                kw.append(["field_schema", _rand_members_ref(rng, n)])
             steps.append({"t": "using", "c": c, "kw": kw})
             n += 1
         elif r < 0.9:
             steps.append({"t": "named", "c": c, "name": rng.choice(NAMES)})
             n += 1
         else:
-            steps.append({"t": "using", "c": c, "kw": [["field_schema", _rand_members(rng)]]})
+            steps.append({"t": "using", "c": c, "kw": [["field_schema", _rand_members_ref(rng, n)]]})
             n += 1
     return {"kind": "chain", "base": "DateYYYYMMDD", "steps": steps}
 
@@ -834,7 +959,8 @@ def gen_chain(rng, base=None, max_steps=12):
                     "pos": rng.choice([None, None, 0, 1, 2, -1, -2, -3, -4, -6, 9])}
         elif r < 0.80:
             step = {"t": "with_properties", "c": c, "pairs": [[rng.choice(KEYS), rng.randint(0, 5)]
-                                                               for _ in range(rng.randint(0, 3))]}
+                                                               for _ in range(rng.randint(0, 3))],
+                    "form": rng.choice(["list", "mapping", "kw", "split", "none"])}
         elif kind in ("dict", "seq", "compound") and r < 0.86:
             step = {"t": "descent_validated_by", "c": c, "vs": _rand_vs(rng)}
         elif kind in ("dict", "seq", "compound") and r < 0.92:
@@ -905,7 +1031,7 @@ class C06(Property):
         "frame", "frame_partial", "frame_observe", "frame_of_pre", "step_pre", "instance_local",
         "schema_fields", "addUnseen_spec", "addAndOverwrite_spec",
         "WF_of_wfB", "C06_full_fails",
-        "userFields_preparedFields", "compound_fields_history_independent", "compoundInit_stores",
+        "suppliedOf_preparedFrom", "compound_fields_history_independent", "compoundInit_stores",
         "compoundInit_preparedFrom", "lookup_ne_preparedFrom", "frame_lazy", "step_lazy_state",
         "WF_step", "WF_run", "ctor_new_or_unchanged", "inst_shape", "step_shape", "mroOf_run",
         "frame_step", "frame_history", "frame_history_observe", "c06_histories_partial", "histGuard_of_no_lazy",
@@ -913,23 +1039,23 @@ class C06(Property):
         "C06_full_history_fails",
     )]
     level_text = "proof (partial: frame theorem over all histories under the guard 'no lazy preparation of the observed class or an ancestor'; KF-C06-a open)"
-    level_note = ("PROVED for every well-formed store of the model and EVERY history of steps: WF_step / WF_run (well-formedness "
-                  "is kept by every step, raising and lazily preparing ones included — the runner's decidable re-check is now a "
-                  "cross-check), ctor_new_or_unchanged ('the returned class is new': a constructor either raises and leaves the "
-                  "store as it was, or adds exactly one class whose id is the old class count, a direct subclass of the target "
-                  "of the same kind; no old MRO changes — step_shape, mroOf_run), frame_history / frame_history_observe / "
-                  "c06_histories_partial (along any chain, a class that existed at the start keeps every attribute, list "
-                  "content and property, under the decidable guard histGuard: no step lazily prepares that class or one of "
-                  "its ancestors; lazy preparation of unrelated classes is allowed), frame_history_any / "
-                  "frame_history_noFields / preparedOf_history (NO guard, single-inheritance stores — ChainWF, kept by every "
-                  "step: every attribute other than field_schema, the properties and the user-supplied members of "
-                  "field_schema are kept along every history; the member list a class gets when prepared is the same at "
-                  "every point of every history).  One-step: frame, frame_partial, frame_observe, frame_step, frame_lazy, "
-                  "instance_local (model stores hold classes of one element kind only, so containers with compound members "
-                  "are outside it), schema_fields (Nodup + overlay), compound_fields_history_independent.  REFUTED: C06_Full "
-                  "(C06_full_fails) and C06_Full_history (C06_full_history_fails) = open finding KF-C06-a (lazy preparation "
-                  "rebinds field_schema of the prepared class and its inheriting descendants).  NOT PROVED: containers "
-                  "holding compounds (oracle only, has_model = False)")
+    level_note = ("PROVED on the model: frame / frame_history (guard lazyPrep = none resp. histGuard), frame_lazy, "
+                  "frame_history_any / frame_history_noFields (every history, lazy preparation included: everything but "
+                  "field_schema, and of field_schema the members a class is supplied with), WF_step / WF_run, "
+                  "ctor_new_or_unchanged, instance_local, schema_fields, compound_fields_history_independent / "
+                  "preparedOf_history (regeneration rule of /repo 33c5842: list identity + remembered supplied members).  "
+                  "TRUE BY CONSTRUCTION of the model (they record how the model is built, the weight is on the "
+                  "correspondence whose snapshots include list contents and list identities): instance_local (a non-compound "
+                  "instantiation has no transition that touches the store), ctor_new_or_unchanged (class_cloner always appends), "
+                  "and the list-CONTENT half of frame (the heap is append-only: the in-place mutation of a shared list, which "
+                  "is what the property fears, cannot be expressed in the model; the identity half — which list object an "
+                  "attribute is bound to — is a real statement).  REFUTED: C06_Full / C06_Full_history = KF-C06-a (open).  "
+                  "ORACLE ONLY: 'the returned class is a new direct subclass', general behavioural history independence, "
+                  "containers holding compounds (has_model = False).  OUTSIDE C06 (declared): using()/__init__ store a "
+                  "descent_validators=[…] keyword list without copying, i.e. the schema aliases the CALLER's list; the caller's "
+                  "list is not 'the schema it came from', so the property does not forbid it — the harness records where it "
+                  "happens (tag descent_validators-list-aliased-with-caller) and never mutates that list; the model allocates a "
+                  "copy, which is observationally the same as long as the caller leaves its list alone")
     technique = "Lean 4 model (class store + heap of list objects) + frame theorem by store extension; differential testing"
     trusted_base = [
         "Python's class machinery (type(), attribute lookup along a single-inheritance MRO, instance __dict__) is the "
@@ -1012,6 +1138,20 @@ class C06(Property):
             {"t": "including_validators", "c": 2, "vs": [7], "pos": None},
             {"t": "including_validators", "c": 2, "vs": [8], "pos": 0},
             {"t": "named", "c": 1, "name": "x"}]})
+        # audit round 2 / fix 33c5842: a user-supplied list that reuses the members a prepared class generated is taken
+        # as it is ([year, month, day.using(optional=True)]); under 71fc8fd it became [day', month, day]
+        out.append({"kind": "chain", "base": "DateYYYYMMDD", "steps": [
+            {"t": "inst", "c": 0, "kw": []},
+            {"t": "using", "c": 0, "kw": [["field_schema", [["ref", 0, 0, None], ["ref", 0, 1, None], ["ref", 0, 2, True]]]]},
+            {"t": "inst", "c": 1, "kw": []},
+            {"t": "using", "c": 1, "kw": [["optional", True]]},
+            {"t": "inst", "c": 2, "kw": []}]})
+        # fix 6f9ffeb: with_properties takes the documented iterable of pairs / a mapping / nothing
+        out.append({"kind": "chain", "base": "String", "steps": [
+            {"t": "with_properties", "c": 0, "pairs": [["a", 1], ["b", 2]], "form": "list"},
+            {"t": "with_properties", "c": 1, "pairs": [["a", 3]], "form": "mapping"},
+            {"t": "with_properties", "c": 2, "pairs": [], "form": "none"},
+            {"t": "with_properties", "c": 1, "pairs": [["c", 4], ["a", 5]], "form": "split"}]})
         # planned drill: including_validators without the list copy
         out.append({"kind": "chain", "base": "String", "steps": [
             {"t": "validated_by", "c": 0, "vs": [1, 2]},
@@ -1079,6 +1219,12 @@ class C06(Property):
             return ["kind=schema", "decls=%d" % len(case["decls"]),
                     "max-bases=%d" % max(len(d["bases"]) for d in case["decls"])]
         t = ["kind=chain", "base=%s" % case["base"], "steps=%d" % len(case["steps"])]
+        # histGuard (Proofs/C06.lean): no step lazily prepares a class in the MRO of an existing class, i.e. no
+        # instantiation changed an existing class; where it fails only frame_history_any / preparedOf_history apply
+        lazy = any(s["t"] == "inst" and o["changed"] for s, o in zip(case["steps"], obs["steps"]))
+        t.append("histGuard=%s" % ("fails-for-some-class" if lazy else "holds-for-every-class"))
+        if obs.get("_caller_alias"):
+            t.append("descent_validators-list-aliased-with-caller")
         for s, o in zip(case["steps"], obs["steps"]):
             t.append("step=%s:%s" % (s["t"], o["r"]))
             if s["t"] == "inst" and s["kw"]:
